@@ -95,17 +95,17 @@ const ruleC = " Each batch is a package of seeded generator functions (swarm con
 
 var registry = map[string]check{
 	"C01": {
-		parts: []part{{"compiled", layerc.C01, 16, 160}}, replay: layerc.Replay, level: "exploration", components: compC,
+		parts: []part{{"compiled", layerc.C01, 16, 160}, {"matrix", layerc.C01M, 4, 48}}, replay: layerc.Replay, level: "exploration", components: compC,
 		rule:        "cases = (generator from the control-flow profile: blocks, if/else-if chains, expression/type/tag-less switches, three-clause/condition-only/infinite loops with yielding init/post, break/continue/return at any depth, nested generator literals) x up to 36 argument vectors x a full drain (infinite generators: 64 elements); oracle: the projection of the history onto delivered values and the position of the first false advance equals the reference coroutine's." + ruleC,
 		assumptions: []string{"fault-free full-drain projection of the C02 simulation: this property has no schedule dimension of its own (DESIGN.md 4 C01)"},
 	},
 	"C02": {
-		parts: []part{{"compiled", layerc.C02, 16, 160}}, replay: layerc.Replay, level: "exploration", components: compC,
+		parts: []part{{"compiled", layerc.C02, 16, 160}, {"matrix", layerc.C02M, 4, 48}}, replay: layerc.Replay, level: "exploration", components: compC,
 		rule:        "cases = (generator from the control-flow profile with effects between all statements and inside yielded expressions) x argument vectors x a consumer history: new, optional Current before the first advance, advances with 0-2 Current reads each, two advances after exhaustion, one quiesce step (Gosched/GC: nothing may be logged). Oracle: full event-history equality with the reference coroutine: no effect between inv(new) and the first advance, every effect inside the same consumer call as in the reference, nothing after exhaustion; a deterministic history contains every truncation point as a prefix." + ruleC,
 		assumptions: []string{"effects (vrt.E) are the observable of 'a statement ran'"},
 	},
 	"C03": {
-		parts: []part{{"compiled", layerc.C03, 16, 160}}, replay: layerc.Replay, level: "exploration", components: compC,
+		parts: []part{{"compiled", layerc.C03, 16, 160}, {"matrix", layerc.C03M, 2, 32}}, replay: layerc.Replay, level: "exploration", components: compC,
 		rule:        "cases = (generator from the scope profile: declarations and shadowing in nested blocks and for/switch/if initialisers, updates before and after yields, closures created before a yield and called after it, closures updating captured variables, names from tiny pools so shadowing is frequent) x argument vectors x drain; every effect and yield reads a drawn subset of the variables in scope; oracle: full history equality with the reference." + ruleC,
 		assumptions: []string{"closures capturing a loop variable and outliving the iteration are not generated (language-version dependent, DESIGN.md 3)"},
 	},
@@ -115,7 +115,7 @@ var registry = map[string]check{
 		assumptions: []string{"known finding A6 (array operand is not copied) is quarantined: no write to a ranged array when the value variable is present"},
 	},
 	"C05": {
-		parts: []part{{"compiled", layerc.C05, 16, 160}}, replay: layerc.Replay, level: "exploration", components: compC,
+		parts: []part{{"compiled", layerc.C05, 16, 160}, {"matrix", layerc.C05M, 2, 32}}, replay: layerc.Replay, level: "exploration", components: compC,
 		rule:        "cases = (generator from the delegation profile: YieldFrom at any statement position incl. for init/post and switch cases, argument with an effect, delegates that are fresh / held in a variable / advanced by hand before delegation / delegated twice / nested generator literals; chain recursion to depth 200, tree recursion, mutual recursion) x argument vectors x consumer history as C02; oracle: full history equality with the reference, whose YieldFrom is by definition for-range-Yield." + ruleC,
 		assumptions: []string{},
 	},
@@ -125,7 +125,7 @@ var registry = map[string]check{
 		assumptions: []string{},
 	},
 	"C07": {
-		parts: []part{{"compiled", layerc.C07, 16, 160}}, replay: layerc.Replay, level: "exploration", components: compC,
+		parts: []part{{"compiled", layerc.C07, 16, 160}, {"matrix", layerc.C07M, 4, 48}}, replay: layerc.Replay, level: "exploration", components: compC,
 		rule:        "cases = (function from the all profile + declarations aimed at the optimiser: closures of the eta-reducible shape over reassigned function variables, method values on reassigned receivers, builtins, conversions, generic instantiations, a loop condition calling a reassigned variable, imports used only by generator code / only by bystanders / blank / renamed / dot) x argument vectors x drain, fault-free and with a panic armed at sampled effect indices. Oracle (self-relative): history(unoptimised stage) == history(optimised stage) of the SAME compiler run; the hook's optimised output is cross-checked byte for byte against production Compile on every batch; both stages must build." + ruleC,
 		assumptions: []string{"the unoptimised stage is made buildable by removing only the (then unused) import of the API package"},
 	},
@@ -189,7 +189,7 @@ var registry = map[string]check{
 		// panicnil=1: a panic whose value is nil stays nil (the default of main modules that
 		// declare go <= 1.20); it changes nothing else
 		env:    []string{"GODEBUG=panicnil=1"},
-		parts:  []part{{"runtime", layerr.C18, 32, 192}, {"compiled", layerc.C18, 16, 128}},
+		parts:  []part{{"runtime", layerr.C18, 32, 192}, {"compiled", layerc.C18, 16, 128}, {"matrix", layerc.C18M, 2, 32}},
 		replay: replayAny, level: "fault_enumeration",
 		rule:        "for each sampled (terms, consumer ops, thread interleaving) with J generator-side effects in the fault-free run, J further runs arm a panic with a unique value at effect j (every j, capped at 120 quick / 400 thorough per run); every fourth injected panic carries the NIL value (the check's processes run with GODEBUG=panicnil=1, the default of main modules declaring go <= 1.20). Oracle (self-relative): identical history up to effect j, the consumer call that was executing ends in a panic carrying exactly the armed value, no later event of that iterator, all other iterators' projections unchanged; secondary: the reference coroutine's history under the same fault is identical. Non-trivial = the run yields at least once; distinct = digest of (scenario, j).",
 		assumptions: []string{"effects (vrt.E) mark every statement position a panic can originate from in the workload"},
